@@ -21,6 +21,23 @@ def allowed_states(prog, states, last_line):
     return [states[j][1] for j in range(acked_pos, hi + 1)], acked_pos
 
 
+def add_key(dump, name, k, v):
+    """the dump string with name{...} updated by k=v (keys sorted bytewise)"""
+    parts = []
+    seen = False
+    for part in (dump or "").split(";"):
+        if part.startswith(name + "{"):
+            seen = True
+            body = part[len(name) + 1:-1]
+            d = dict(x.split("=") for x in body.split(",") if x)
+            d[k] = v
+            part = name + "{" + ",".join("%s=%s" % (a, d[a]) for a in sorted(d, key=bytes.fromhex)) + "}"
+        parts.append(part)
+    if not seen:
+        parts = sorted([p for p in parts if p and p != "-"] + ["%s{%s=%s}" % (name, k, v)])
+    return ";".join(parts)
+
+
 def crash_workload(args):
     idx, seed, tier = args
     r = random.Random(seed * 15485863 + idx)
@@ -59,13 +76,22 @@ def crash_workload(args):
                 out["torn"] += 1
             o, raw, rc = run_fjv(prog, dbdir=db, env_extra=C.shim_env(db, wd, **kw))
             last = C.acked_ops(prog, o)
-            okres, dump, o2 = C.reopen_dump(db, mode)
+            # reopen, dump; then write once more, reopen again and dump again: the repaired journal must keep working
+            okres, dump, o2 = C.reopen_dump(db, mode, extra="ks h9 alpha\nput h9 7a7a7a 01\nreopen\ndump\n")
             out["runs"] += 1
             allowed, pos = allowed_states(prog, states, last)
             if okres != "ok" or dump not in allowed:
                 out["problems"].append(("crash", n, torn, "last acknowledged line %d" % last, okres, dump, allowed))
                 if len(out["problems"]) >= 2:
                     break
+            else:
+                d2 = o2.get(6)
+                want = add_key(dump, "alpha", "7a7a7a", "01")
+                if o2.get(5) != "ok" or d2 != want:
+                    out["problems"].append(("crash+write+reopen", n, torn, "last acknowledged line %d" % last,
+                                            "%s after the second reopen" % o2.get(5), d2, [want]))
+                    if len(out["problems"]) >= 2:
+                        break
         out["sample"] = dict(mode=mode, ops=prog.splitlines()[6:12], events=len(evs), crash_runs=out["runs"])
         return out
     finally:
